@@ -48,7 +48,14 @@ def drawing_event(A, inp, m, fam, orient, seed, lab=None, rng=None):
                     event["lay_arrows"].append([br["gene"], br["right"], m[br["right"] - 1] if br["right"] > 0 else 0])
     parsed = rc.parse_tikz(text)
     events, losses, arrows, problems = rc.locate_tikz(A, lay, parsed, onodes, snodes, params)
-    event["tikz_events"], event["tikz_losses"], event["tikz_arrows"] = events, losses, arrows
+    # an arrow ends at a point; when several anchors share it, the arrow is read as ending at the
+    # transferred child of its source if that child is among them
+    resolved = []
+    for src, cands in arrows:
+        want = [a for a in event["lay_arrows"] if a[0] == src]
+        pick = next((c for c in cands if want and c[0] == want[0][1]), cands[0])
+        resolved.append([src, pick[0], pick[1]])
+    event["tikz_events"], event["tikz_losses"], event["tikz_arrows"] = events, losses, resolved
     event["problems"] = problems[:3]
     if len(stub.calls) != 1:
         event["problems"].append(f"the measurer was called {len(stub.calls)} times")
